@@ -93,6 +93,8 @@ func StructConfigs(thorough bool, caches []string, formats []string) []*world.Co
 	cs = append(cs, Seeded16(formats[len(formats)-1], 2))
 	// values with indirection
 	cs = append(cs, world.IntCfg(2, []int{1, 2, 3, 4, 8}, []interface{}{[]int{1}, []int{2, 3}}, []int{}, f0, "none"))
+	// values that differ only as nil versus empty (written as null and ""): an update between them is a change
+	cs = append(cs, world.IntCfg(2, []int{1, 2, 4}, []interface{}{[]byte(nil), []byte{}, []byte{0}}, []byte{}, f0, "none"))
 	cs = append(cs, world.StringCfg(2, []uint8{0, 1, 0, 2, 0}, f0, "none"))
 	// the same family of strings at another branch factor, after the one above (a layer must not be remembered across branch factors)
 	cs = append(cs, world.StringCfg(4, []uint8{0, 0, 1, 0, 0, 0}, f0, "none"))
@@ -361,6 +363,11 @@ func C08(run *report.Run) {
 		c08mu.Unlock()
 		return m
 	})
+	{
+		acc := &pairAcc{}
+		c08HandleIndependence(run, acc)
+		acc.flush(run)
+	}
 	for _, m := range c08all {
 		total += m.stores
 		distinct += int64(len(m.nameBytes))
